@@ -200,7 +200,8 @@ async def _run(role, days):
     out = []
     clock = VClock()
     with patch("asyncio.sleep", _fast_sleep), patch("asyncio.open_connection", _no_network), \
-            patch("asyncio.start_server", _no_network), patch("asyncfix.connection.time", clock):
+            patch("asyncio.start_server", _no_network), \
+            patch("asyncfix.connection.time", C.clock_patch(__import__("asyncfix.connection").connection, clock.time)):
         if role == "acceptor":
             # what AsyncFIXDummyServer.connect() does once before it starts serving
             await AsyncFIXConnection.connect(conn)
